@@ -294,6 +294,9 @@ func Spec() *core.Spec {
 				resp := i%2 == 1
 				enc := encs[(i/2)%3]
 				code := opCodes(r, i/6)
+				if !resp && i/6 == 29 {
+					code = 0 // operation code 0 (requests only: a response without operation has no typed payload)
+				}
 				minor := r.Intn(5)
 				g := mode(r, minor)
 				pl := genericPayload(g, r.Bool())
